@@ -158,35 +158,108 @@ def residue(obj, known=(), depth=3):
     return out
 
 
+def module_functions(modules):
+    """every function object reachable from the modules' globals and their classes, wrappers included (each once)"""
+    import types
+    seen, out = set(), []
+    for m in modules:
+        cands = []
+        for v in list(vars(m).values()):
+            if isinstance(v, types.FunctionType):
+                cands.append(v)
+            elif isinstance(v, type) and v.__module__ == m.__name__:
+                for a in list(vars(v).values()):
+                    a = getattr(a, "__func__", a)
+                    a = getattr(a, "fget", a) if isinstance(a, property) else a
+                    if isinstance(a, types.FunctionType):
+                        cands.append(a)
+        for f in cands:
+            while f is not None and id(f) not in seen:
+                seen.add(id(f))
+                out.append(f)
+                f = getattr(f, "__wrapped__", None)
+                if not isinstance(f, types.FunctionType):
+                    break
+    return out
+
+
 class ModuleResidue:
     """Module-level state that differs from what it was when the execution started (scalars and plain containers of the
     given modules, except the names the caller handles by hand)."""
+    _SC = (type(None), bool, int, float)
+    _memo = {}
+
+    def __new__(cls, modules, known=()):
+        # the base is "psutil right after reset_psutil()", which is the same every time: build it once per process
+        key = (tuple(m.__name__ for m in modules), tuple(sorted(known)))
+        inst = cls._memo.get(key)
+        if inst is None:
+            inst = cls._memo[key] = object.__new__(cls)
+            inst._built = False
+        return inst
 
     def __init__(self, modules, known=()):
+        if self._built:
+            return
+        self._built = True
         self.mods = modules
         self.known = set(known)
-        self.base = {}
+        self.names = {}
+        self.items = []           # (module name, globals dict, key, raw base value | canonical base, is_container)
         for m in modules:
-            for k, v in vars(m).items():
-                if k in self.known or k.startswith("__"):
-                    continue
-                if v is None or isinstance(v, (bool, int, float, dict, list, set)):
-                    self.base[(m.__name__, k)] = _canon_val(v, 2)
-
-    def diff(self):
-        out = []
-        for m in self.mods:
             g = vars(m)
+            self.names[m.__name__] = set(g)
             for k, v in g.items():
                 if k in self.known or k.startswith("__"):
                     continue
-                if v is None or isinstance(v, (bool, int, float, dict, list, set)):
-                    b = self.base.get((m.__name__, k), "<absent>")
-                    if v is b:
-                        continue
-                    c = _canon_val(v, 2)
-                    if c != b:
-                        out.append((m.__name__, k, c))
+                if isinstance(v, self._SC):
+                    self.items.append((m.__name__, g, k, v, False))
+                elif isinstance(v, (dict, list, set)):
+                    self.items.append((m.__name__, g, k, _canon_val(v, 2), True))
+        # data kept as attributes of function objects (flags on decorators' wrappers ...)
+        self.fns = module_functions(modules)
+        self.fbase = [self._fattrs(f) for f in self.fns]
+        # ... and in closure cells (a decorator's private cache)
+        self.cells = []
+        for f in self.fns:
+            for i, cell in enumerate(f.__closure__ or ()):
+                try:
+                    v = cell.cell_contents
+                except ValueError:
+                    continue
+                if isinstance(v, (dict, list, set)):
+                    self.cells.append((f, i, cell, _canon_val(v, 2)))
+
+    @staticmethod
+    def _fattrs(f):
+        return sorted((k, _canon_val(v, 2)) for k, v in f.__dict__.items()
+                      if k != "__wrapped__" and (v is None or isinstance(v, (bool, int, float, str, dict, list, set))))
+
+    def diff(self):
+        out = []
+        for mn, g, k, b, container in self.items:
+            v = g.get(k, "<absent>")
+            if container:
+                c = _canon_val(v, 2)
+                if c != b:
+                    out.append((mn, k, c))
+            elif v is not b and (type(v) is not type(b) or v != b):
+                out.append((mn, k, _canon_val(v, 2)))
+        for m in self.mods:
+            g = vars(m)
+            if len(g) != len(self.names[m.__name__]):
+                for k in g:
+                    if k not in self.names[m.__name__] and k not in self.known and isinstance(g[k], self._SC + (dict, list, set)):
+                        out.append((m.__name__, k, _canon_val(g[k], 2)))
+        for f, i, cell, b in self.cells:
+            c = _canon_val(cell.cell_contents, 2)
+            if c != b:
+                out.append(("cell", getattr(f, "__qualname__", str(f)), i, c))
+        for f, b in zip(self.fns, self.fbase):
+            if f.__dict__:
+                c = self._fattrs(f)
+                if c != b:
+                    out.append(("fn", getattr(f, "__qualname__", str(f)), c))
         return sorted(out, key=repr)
 
 
